@@ -3,6 +3,7 @@ package props
 import (
 	"encoding/json"
 	"fmt"
+	"github.com/ajitpratap0/GoSQLX/pkg/lsp"
 	"math/rand"
 	"sort"
 	"strings"
@@ -29,6 +30,7 @@ func c18Parent(c *mon.Ctx) {
 	sh = append(sh, shards("plain", "diagnostics", 2, "-n", fmt.Sprint(per/2))...)
 	sh = append(sh, shards("plain", "burst", 1, "-n", fmt.Sprint(per/20+3))...)
 	sh = append(sh, shards("plain", "headers", 1, "-n", fmt.Sprint(per/4))...)
+	sh = append(sh, shards("plain", "inject", 1, "-n", fmt.Sprint(per/4))...)
 	res := c.RunShards(sh, 16)
 	c.ClassifyDeaths(res, "the server keeps running")
 }
@@ -36,11 +38,11 @@ func c18Parent(c *mon.Ctx) {
 // ---- session model -------------------------------------------------------------------------
 
 type c18Step struct {
-	Kind   string // request notification malformed response-like header-fault
-	Label  string // method or fault name (for identities)
-	Bytes  []byte
-	ID     string // raw JSON id expected on the response ("" = none expected)
-	Maybe  bool   // a response is allowed but not required
+	Kind  string // request notification malformed response-like header-fault
+	Label string // method or fault name (for identities)
+	Bytes []byte
+	ID    string // raw JSON id expected on the response ("" = none expected)
+	Maybe bool   // a response is allowed but not required
 }
 
 type c18Doc struct {
@@ -410,7 +412,7 @@ func c18Request(r *rand.Rand, idn *int, docs map[string]*c18Doc) c18Step {
 	case "textDocument/codeAction":
 		l2, c2 := c18Pos(r, text)
 		rng := map[string]interface{}{"start": map[string]int{"line": l, "character": c}, "end": map[string]int{"line": l2, "character": c2}}
-		params = map[string]interface{}{"textDocument": td, "range": rng, "context": map[string]interface{}{"diagnostics": []interface{}{map[string]interface{}{"range": rng, "message": []string{"expected semicolon", "unexpected token", "unknown column x", "expected FROM", ""}[r.Intn(5)], "severity": 1}}}}
+		params = map[string]interface{}{"textDocument": td, "range": rng, "context": map[string]interface{}{"diagnostics": []interface{}{map[string]interface{}{"range": rng, "message": []string{"expected semicolon", "unexpected token", "unknown column x", "expected FROM", "", "keyword should be uppercase", "unexpected keyword select", "expected ; got keyword"}[r.Intn(8)], "severity": 1}}}}
 	case "initialize":
 		params = map[string]interface{}{"processId": 1, "rootUri": "file:///", "capabilities": map[string]interface{}{}}
 	default:
@@ -624,6 +626,38 @@ func c18Child(a *ChildArgs) {
 			}
 			c18CheckSession(a, s, "burst", true)
 		}
+	case "inject":
+		// fault injection through the verif hook: a handler that panics must cost exactly its own request
+		lsp.VerifHandlerHook = func(method string) {
+			if strings.HasPrefix(method, "verif/panic") {
+				panic("injected fault in handler of " + method)
+			}
+		}
+		for i := 0; i < a.N; i++ {
+			r := rand.New(rand.NewSource(base + int64(i)*15485863))
+			s := &c18Session{docs: map[string]*c18Doc{}}
+			idn := 0
+			s.open(c18URIs[0], c18Texts[r.Intn(len(c18Texts))], 1)
+			n := 2 + r.Intn(10)
+			for k := 0; k < n; k++ {
+				switch r.Intn(4) {
+				case 0:
+					idn++
+					s.add(c18Step{Kind: "request", Label: "verif/panicRequest", ID: fmt.Sprint(idn), Bytes: lspReq(idn, "verif/panicRequest", map[string]int{"k": k})})
+				case 1:
+					s.add(c18Step{Kind: "notification", Label: "verif/panicNotification", Bytes: lspNotif("verif/panicNotification", nil)})
+				case 2:
+					s.add(c18Request(r, &idn, s.docs))
+				default:
+					ch, label := c18RandomChange(r, s.docs[c18URIs[0]].text)
+					s.change(c18URIs[0], 2+k, []c18Change{ch}, "didChange:"+label)
+				}
+			}
+			idn++
+			s.add(c18Step{Kind: "request", Label: "after-faults", ID: fmt.Sprint(idn), Bytes: lspReq(idn, "textDocument/documentSymbol", map[string]interface{}{"textDocument": map[string]interface{}{"uri": c18URIs[0]}})})
+			c18CheckSession(a, s, "inject", true)
+		}
+		lsp.VerifHandlerHook = nil
 	case "headers":
 		faults := []struct{ name, raw string }{
 			{"negative-length", "Content-Length: -1\r\n\r\n{}"},
@@ -741,6 +775,38 @@ func c18Diagnostics(a *ChildArgs, r *rand.Rand) {
 		gotLines = append(gotLines, d.Range.Start.Line)
 		if d.Range.Start.Line < 0 || d.Range.Start.Line >= nl || d.Range.End.Line < d.Range.Start.Line {
 			a.Rec.Viol("C18/diagnostics/range-outside", "each anchored on the line of the token that caused it", fmt.Sprintf("diagnostic range starts on line %d of a %d-line document", d.Range.Start.Line, nl), wit)
+		}
+	}
+	// the same text and version again after a close (and once more without one): what was last published must
+	// still be the diagnostics of the text that is open now
+	for _, withClose := range []bool{true, false} {
+		s2 := &c18Session{docs: map[string]*c18Doc{}}
+		s2.open(uri, text, ver)
+		if withClose {
+			s2.close(uri)
+		}
+		s2.open(uri, text, ver)
+		res2 := c18CheckSession(a, s2, "diagnostics-reopen", true)
+		if res2.Panic != "" || res2.FrameErr != "" {
+			continue
+		}
+		n := -1
+		for i := range res2.Frames {
+			f := &res2.Frames[i]
+			if f.Method == "textDocument/publishDiagnostics" {
+				var pp struct {
+					URI         string
+					Diagnostics []json.RawMessage
+				}
+				json.Unmarshal(f.Params, &pp)
+				if pp.URI == uri {
+					n = len(pp.Diagnostics)
+				}
+			}
+		}
+		if n != len(errs) {
+			a.Rec.Viol(fmt.Sprintf("C18/diagnostics/reopen-close=%v/count", withClose), "the diagnostics it last published are those of that text and version",
+				fmt.Sprintf("after open%s open of the same text and version the last publication carries %d diagnostics, the text has %d errors", map[bool]string{true: ", close,", false: ","}[withClose], n, len(errs)), wit)
 		}
 	}
 	sort.Ints(gotLines)
